@@ -63,6 +63,7 @@ type Step struct {
 	// K: "sn" client sends SN; "snraw" client sends Raw; "mq" broker sends MQ;
 	// "mqraw" broker sends Raw; "adv" virtual time advances D ms; "cancel"
 	// gateway shutdown (context cancel); "mqclose" broker closes the connection;
+	// "snrepeat" the client sends the D-th most recent of its datagrams again;
 	// "mqstall"/"mqunstall" the broker stops/resumes reading (writes to it block);
 	// "auto" replaces the reactive behaviour.
 	K      string       `json:"k"`
@@ -484,6 +485,23 @@ func (s *Session) Apply(i int, st Step) {
 	case "mqclose":
 		s.ev(Event{Dir: EV, What: "MQCLOSE"})
 		s.MQ.Close()
+	case "snrepeat": // the client repeats the D-th most recent datagram it sent (its own automatic replies included): UDP may duplicate
+		n := int(st.D)
+		s.evMu.Lock()
+		var raw []byte
+		for j := len(s.tr.Events) - 1; j >= 0; j-- {
+			if s.tr.Events[j].Dir == CG {
+				if n <= 1 {
+					raw = s.tr.Events[j].Raw
+					break
+				}
+				n--
+			}
+		}
+		s.evMu.Unlock()
+		if raw != nil {
+			s.ClientSendRaw(raw)
+		}
 	case "mqstall": // the broker stops reading: the gateway's writes to it block
 		s.ev(Event{Dir: EV, What: "MQSTALL"})
 		s.MQ.SetStalled(true)
